@@ -20,9 +20,10 @@ enum Step {
     ConfSilent,
     Oversize,     // an authentic frame far too long for slow windows, in RX1 or RX2
     ConfOversize, // the same after a confirmed uplink
+    MacHit,       // an authentic RX1 downlink carrying MAC commands (LinkADRReq with NbTrans 2..15, timing, duty cycle, status)
 }
 
-const STEPS: [Step; 10] = [Step::Silent, Step::Rx1Hit, Step::Rx2Hit, Step::Invalid, Step::Garbage, Step::ClassC, Step::ConfAcked, Step::ConfSilent, Step::Oversize, Step::ConfOversize];
+const STEPS: [Step; 11] = [Step::Silent, Step::Rx1Hit, Step::Rx2Hit, Step::Invalid, Step::Garbage, Step::ClassC, Step::ConfAcked, Step::ConfSilent, Step::Oversize, Step::ConfOversize, Step::MacHit];
 
 impl Monitor for C06 {
     fn prop(&self) -> &'static str {
@@ -32,7 +33,7 @@ impl Monitor for C06 {
         vec![gen("single-fault", tier.pick(600, 200_000, 3)), gen("double-fault", tier.pick(60, 30_000, 0)), gen("expiry", tier.pick(300, 50_000, 2)), gen("long-silence", tier.pick(54, 2_000, 0))]
     }
     fn rule(&self) -> String {
-        "single-fault: a base history of 3-10 transactions over {silent, RX1 hit, RX2 hit, invalid frame, garbage, Class C downlink, confirmed+ACK, confirmed silent, oversized frame in RX1/RX2 (also after a confirmed uplink)} is first run fault-free to count its K radio calls, then re-run K times with a radio error injected at call k (tx/setup_rx/rx_single/rx_continuous/low_power, nb: TxRequest/RxRequest/CancelRx/Phy), the application carrying on with the next sends; double-fault: two fault positions; expiry: sessions starting at 2^32-4..2^32-1; long-silence: 100-170 unanswered uplinks in a row (the ADR back-off bookkeeping at 64/96/128 unanswered uplinks, at the data-rate floor). Every data frame handed to the radio is decoded by the reference codec; counters must be strictly increasing until SessionExpired. Class = (front-end, history shape, fault call kind, fault position class, start class).".into()
+        "single-fault: a base history of 3-10 transactions over {silent, RX1 hit, RX2 hit, invalid frame, garbage, Class C downlink, confirmed+ACK, confirmed silent, oversized frame in RX1/RX2 (also after a confirmed uplink), RX1 hit carrying LinkADRReq with NbTrans 2..15 and other MAC commands} is first run fault-free to count its K radio calls, then re-run K times with a radio error injected at call k (tx/setup_rx/rx_single/rx_continuous/low_power, nb: TxRequest/RxRequest/CancelRx/Phy), the application carrying on with the next sends; double-fault: two fault positions; expiry: sessions starting at 2^32-4..2^32-1; long-silence: 100-170 unanswered uplinks in a row (the ADR back-off bookkeeping at 64/96/128 unanswered uplinks, at the data-rate floor). Every data frame handed to the radio is decoded by the reference codec; counters must be strictly increasing until SessionExpired. Class = (front-end, history shape, fault call kind, fault position class, start class).".into()
     }
     fn assumptions(&self) -> Vec<String> {
         vec![
@@ -44,7 +45,7 @@ impl Monitor for C06 {
         if tier == Tier::Sanitizer {
             vec!["uplinks_decoded"]
         } else {
-            vec!["uplinks_decoded", "faults_injected", "fault_tx", "fault_rx_setup", "fault_rx", "session_expired_reported", "counter_crossed_16bit"]
+            vec!["uplinks_decoded", "faults_injected", "fault_tx", "fault_rx_setup", "fault_rx", "session_expired_reported", "counter_crossed_16bit", "mac_command_steps"]
         }
     }
 
@@ -174,6 +175,20 @@ fn run_history(front: Front, reg: regions::Reg, start: u32, steps: &[Step], faul
             Step::Silent | Step::ConfSilent => {}
             Step::Rx1Hit | Step::ConfAcked => script.rx1.push(good),
             Step::Rx2Hit => script.rx2.push(good),
+            Step::MacHit => {
+                // commands that may change how the device treats its uplinks; data rate, power and
+                // mask are left as they are (DR 15 / power 15 = keep; mask = the plan's default set)
+                let nb = 2 + ((i as u64 + seed) % 14) as u8;
+                let mut cmds = if reg.fixed() { link_adr_req(15, 15, 0x00FF, 6, nb) } else { link_adr_req(15, 15, (1u16 << reg.default_channels().len()) - 1, 0, nb) };
+                match (i as u64 + seed / 16) % 4 {
+                    0 => cmds.extend(rx_timing_setup_req(1 + (seed % 3) as u8)),
+                    1 => cmds.extend(duty_cycle_req((seed % 8) as u8)),
+                    2 => cmds.extend(dev_status_req()),
+                    _ => {}
+                }
+                script.rx1.push(net.downlink(&Down { fcnt: fcnt_down, ack: confirmed, port: Some(5), payload: &[i as u8], f_opts: &cmds, ..Default::default() }));
+                col.event("mac_command_steps");
+            }
             Step::Invalid => {
                 let mut b = good;
                 let n = b.len();
